@@ -177,8 +177,20 @@ def check_layers(case) -> Outcome:
             exp, src = np.log(k), "transforms"
         vname = name
     df = pd.DataFrame(data)
+    entry = case.get("entry", "formula")
+    out.label("entry:" + entry)
     try:
-        mm = Formula(s).get_model_matrix(df, context=ctx)
+        if entry == "spec-overrides":
+            # the context handed to a spec together with option overrides
+            from formulaic import ModelSpec
+
+            mm = ModelSpec(formula=Formula(s)).get_model_matrix(df, context=ctx, output="numpy")
+        elif entry == "spec":
+            from formulaic import ModelSpec
+
+            mm = ModelSpec(formula=Formula(s), output="pandas").get_model_matrix(df, context=ctx)
+        else:
+            mm = Formula(s).get_model_matrix(df, context=ctx)
     except FactorEvaluationError as e:
         if exp is None:
             out.rejected = True
@@ -206,6 +218,7 @@ def gen_layers():
     return st.fixed_dictionaries(
         {
             "usage": st.sampled_from(["lookup", "python-value", "callable"]),
+            "entry": st.sampled_from(["formula", "formula", "spec", "spec-overrides"]),
             "layers": st.sets(st.sampled_from(["data", "context", "builtin"]), min_size=1, max_size=3).map(lambda s: s | {"builtin"} if False else s),
         }
     )
@@ -224,6 +237,11 @@ DOT_RHS = [
     ["b", "-", ["b", "-", ["."], ["n", "a"]], ["n", "b"]],
     ["b", "+", ["."], ["0"]],
     ["b", "/", ["n", "a"], ["."]],
+    # a right-hand side that starts with a sign (the tokenizer fuses it with a preceding ~ or |)
+    ["b", "+", ["u", "-", ["1"]], ["."]],
+    ["b", "+", ["u", "+", ["1"]], ["."]],
+    ["b", "+", ["u", "-", ["n", "a"]], ["."]],
+    ["b", "-", ["u", "+", ["."]], ["n", "b"]],
 ]
 LHS = [None, [["n", "y"]], [["c", "log(y)", ["y"]]], [["q", "c d"]], [["b", "+", ["n", "y"], ["n", "b"]]], [["c", "log(y)", ["y"]], ["n", "a"]]]
 
